@@ -119,6 +119,13 @@ CHECKS.update({
    technique="symbolic differential execution of the real Python (PYSYM) and C streaming kernels (LLSYM) + z3"),
 })
 
+CHECKS.update({
+ 'C12': dict(engine="PYSYM+LLSYM", category="other",
+   text="Glue: symbolic execution of the real KDF code with passwords, salts, labels and contexts as solver variables and the hash (whole-message), ROMix and EksBlowfish cores uninterpreted: z3 decides PBKDF1 == RFC 8018 s5.1, PBKDF2 (generic-PRF path and HMAC-assist fast path, through the real HMAC.py) == RFC 8018 s5.2, HKDF == RFC 5869 incl. multi-key outputs as consecutive slices and the 255*HashLen limit at its exact boundary, SP 800-108 counter mode input formatting and NUL refusal, the scrypt parameter rules for symbolic N and its PBKDF2-ROMix-PBKDF2 plumbing (RFC 7914), bcrypt control logic (NUL refusal, 72-byte limit, implicit NUL, cost/salt ranges, framing, bcrypt_check accepts the produced hash); and the C inner loop *_pbkdf2_hmac_assist of SHA-1/SHA-256/SHA-512 (LLSYM, compression uninterpreted) == xor of the HMAC chain with inner/outer states untouched.",
+   note="dkLen <= 3 PRF blocks+1, count <= 3, N <= 12 bits (rules) / N<=4,r<=2,p<=2 (plumbing); scryptROMix/Salsa20-8 and EksBlowfish values, _bcrypt_encode/_bcrypt_decode on symbolic text, real iteration counts and hash compression functions are outside.",
+   technique="bounded symbolic execution of the real Python (PYSYM) and C (LLSYM) over uninterpreted hash/ROMix cores + z3"),
+})
+
 ENGINES = [
     dict(name="PYSYM", path="vlib/pysym", kind_free_text="bounded symbolic execution of the real Python source (AST-rewritten import, symbolic bytes/int proxies, fork by re-execution under a decision prefix) decided by z3"),
     dict(name="LLSYM", path="vlib/llsym", kind_free_text="symbolic interpreter of clang-14 LLVM IR (-O0 + mem2reg) of /repo/src/*.c into z3 terms, bounds-checked memory model, local path exploration with ite-merge at function returns; replay on the gcc-built C through ctypes"),
